@@ -1,5 +1,5 @@
 SPECIFICATION GSpec
-INVARIANTS Emit TypeOK SortedTsList NoDoubleEmit AscendingWithinFlush ClosedStaysClosed
+INVARIANTS EmitFmts Emit TypeOK SortedTsList NoDoubleEmit AscendingWithinFlush ClosedStaysClosed
 PROPERTIES ExactlyOnceContribution
 CHECK_DEADLOCK FALSE
 CONSTANT Vals <- GenVals
